@@ -272,16 +272,24 @@ class _OldLift(ast.NodeTransformer):
         return self.generic_visit(node)
 
 
+def _ranges(bounds):
+    rs = [range(lo, hi) for lo, hi in zip(bounds[0::2], bounds[1::2])]
+    tot = 1
+    for r in rs:
+        tot *= max(len(r), 1)
+    if tot > 200000:
+        raise NativeUnavailable('quantifier range too large for native evaluation')
+    return rs
+
+
 def _forall(f, *bounds):
     import itertools
-    rs = [range(lo, hi) for lo, hi in zip(bounds[0::2], bounds[1::2])]
-    return all(f(*xs) for xs in itertools.product(*rs))
+    return all(f(*xs) for xs in itertools.product(*_ranges(bounds)))
 
 
 def _exists(f, *bounds):
     import itertools
-    rs = [range(lo, hi) for lo, hi in zip(bounds[0::2], bounds[1::2])]
-    return any(f(*xs) for xs in itertools.product(*rs))
+    return any(f(*xs) for xs in itertools.product(*_ranges(bounds)))
 
 
 def native_globals():
@@ -328,6 +336,26 @@ def snapshot(v):
 
 
 def run_once(c, func, g, exprs):
+    """one native execution under a wall-clock guard (contract evaluation included)"""
+    import signal
+
+    class _Guard(BaseException):
+        pass
+
+    def _alarm(signum, frame):
+        raise _Guard()
+    prev = signal.signal(signal.SIGALRM, _alarm)
+    signal.setitimer(signal.ITIMER_REAL, NATIVE_TIME_LIMIT * 4)
+    try:
+        return _run_once(c, func, g, exprs)
+    except _Guard:
+        return dict(status='unavailable', why='native evaluation of the contract exceeded its time guard')
+    finally:
+        signal.setitimer(signal.ITIMER_REAL, 0)
+        signal.signal(signal.SIGALRM, prev)
+
+
+def _run_once(c, func, g, exprs):
     """one native execution.  returns dict(status=ok|skip|violation|unavailable, ...)"""
     params = c.params or {}
     try:
@@ -366,7 +394,7 @@ def run_once(c, func, g, exprs):
     def _alarm(signum, frame):
         raise _Timeout()
     prev = signal.signal(signal.SIGALRM, _alarm)
-    signal.setitimer(signal.ITIMER_REAL, NATIVE_TIME_LIMIT)
+    outer_left = signal.setitimer(signal.ITIMER_REAL, NATIVE_TIME_LIMIT)[0]
     try:
         try:
             result = func(**args)
@@ -374,8 +402,8 @@ def run_once(c, func, g, exprs):
                 import itertools
                 result = list(itertools.islice(result, 200000))
         finally:
-            signal.setitimer(signal.ITIMER_REAL, 0)
             signal.signal(signal.SIGALRM, prev)
+            signal.setitimer(signal.ITIMER_REAL, max(outer_left, 0.5))
     except _Timeout:
         return dict(status='violation', clause='termination', input=inp,
                     observed='the real function did not return within %.0f s on this input' % NATIVE_TIME_LIMIT,
